@@ -9,8 +9,12 @@
    type_ok /\ source_ok /\ bytes_ok /\ in_time_pos, where in_time_pos decides a timed message by its own
    (index-resolution) time and an untimed one by its position among ALL timed messages of the log. *)
 From Coq Require Import ZArith List Bool Sorted.
+From Coq Require Import NArith.
+From FEC Require Import Generated.FEConsts Base.Bytes Base.Scan Base.FEFormat
+  Models.FastIndexerM Proofs.FastIndexerSpecP Models.FileScanM Models.FileIndexIOM Models.SystemLinkM Proofs.FileIndexIOP.
 From FEC Require Import Generated.LogReaderConsts Models.FileIndexOpsM Models.LogReaderM
-  Proofs.FileIndexOpsP Proofs.LogReaderP Proofs.LogReaderSpecP Proofs.LogReaderConditionsP Proofs.LogReaderExamplesP.
+  Proofs.FileIndexOpsP Proofs.LogReaderP Proofs.LogReaderSpecP Proofs.LogReaderConditionsP Proofs.LogReaderExamplesP
+  Proofs.LogReaderLinkP.
 Import ListNotations.
 Open Scope Z_scope.
 
@@ -146,3 +150,74 @@ Theorem C10_legacy_refuted :
   length (spec_read (cfg_of None false true false true false) ex4_file (Some [1; 2]) None None) = 12%nat.
 Proof. exact legacy_read_refuted. Qed.
 Print Assumptions C10_legacy_refuted.
+
+(* ================================================================================================ *)
+(* From FILE BYTES (link to C08 / C09 / C18, Proofs/LogReaderLinkP.v).
+   [log_of_file p1 d] is the list of messages of the byte string d: one per frame of the end-of-file aware
+   left-to-right scan [file_frames d] (C08: = fi_spec_frames d, what the fast indexer finds for every worker count;
+   C09: what opening the log yields), with offset, size, type and source id read from the frame's header bytes and the
+   whole-second P1 time given by the payload-time decoder [p1] (a parameter, as in C08 / C09; C01's subject). *)
+
+(* The log of ANY byte string is well formed (non-negative strictly increasing offsets, no overlap, every message at
+   least a header long and inside the file) — the only thing not derivable from the bytes is the documented assumption
+   that P1 times do not decrease. *)
+Theorem C10_file_log_wellformed : forall p1 d, p1_times_sorted p1 d -> wf_file (file_of p1 d).
+Proof. exact file_of_wf. Qed.
+Print Assumptions C10_file_log_wellformed.
+
+(* Every message of that log IS bytes of the file: file[offset, offset + size) is a CRC-valid FusionEngine message
+   (judge_file accepts exactly these bytes), type / source / size are the fields of the header in these bytes, and the
+   reader's re-validation at the indexed offset (C09's read_at: header, size limit, length, CRC) yields these bytes. *)
+Theorem C10_log_messages_are_file_bytes : forall p1 d m, In m (log_of_file p1 d) ->
+  exists o bs, In (o, bs) (file_frames d) /\ m = msg_of_frame p1 (o, bs) /\
+    m_off m = Z.of_nat o /\ m_size m = Z.of_nat (length bs) /\
+    sub d o (length bs) = bs /\ judge_file bs = Accept (length bs) /\
+    m_type m = Z.of_N (h_type (parse_header (firstn HEADER_SIZE bs))) /\
+    m_src m = Z.of_N (h_source (parse_header (firstn HEADER_SIZE bs))) /\
+    m_size m = Z.of_nat HEADER_SIZE + Z.of_N (h_psize (parse_header (firstn HEADER_SIZE bs))) /\
+    FileScanM.read_at d o = RYield bs.
+Proof. exact log_message_bytes. Qed.
+Print Assumptions C10_log_messages_are_file_bytes.
+
+(* Reading the bytes d of a log file through fast_generate_index — index file absent, present (any cut of an index
+   saved for a file of which d is a truncation or an extension: plausible_index) or ignored; re-indexing done by the fast
+   indexer with any worker count W — then the constructor filters and the iteration:
+   the index the reader holds is the fresh index of d, it is the index the reader MODEL starts from, the messages are
+   those of C08's SPEC scan, the read returns exactly the SPEC filter over them, and every yielded piece list is
+   consistent with the actual bytes: bytes = d[offset, offset + size), CRC-valid, re-validated by the reader, ordinal =
+   position among the scan's frames.
+   Visible hypotheses: C08's precondition (every CRC-valid candidate is at most MAX = 16 KiB bytes; READ/MAX arithmetic),
+   no max_bytes, non-decreasing P1 times, range_has_t0 (the recorded IndexError finding). *)
+Theorem C10_read_from_file_bytes : forall READ MAX : N,
+  (2 <= READ)%N -> (READ mod 2 = 0)%N -> (24 <= MAX)%N -> (MAX <= READ)%N ->
+  forall (ptime : N -> N -> list N -> option (N * N)) (W : N), (1 <= W)%N ->
+  forall p1i d ig c srcs types R,
+  fi_small_msgs MAX d -> plausible_index (p1_of_ptime ptime) p1i d ->
+  c_max_bytes c = None -> p1_times_sorted (p1_of_ptime ptime) d -> range_has_t0 c (file_of (p1_of_ptime ptime) d) R ->
+  exists idx o,
+    opened_index READ MAX ptime W load p1i d ig = Some idx /\
+    open_log_fi READ MAX ptime W load p1i d ig = Opened o /\ o_msgs o = fi_spec_frames d /\
+    findex_of idx = index_of_file (file_of (p1_of_ptime ptime) d) (c_max_bytes c) /\
+    log_of_file (p1_of_ptime ptime) d = map (msg_of_frame (p1_of_ptime ptime)) (fi_spec_frames d) /\
+    read_log fixed c (file_of (p1_of_ptime ptime) d) srcs types R = Ok (spec_read c (file_of (p1_of_ptime ptime) d) srcs types R) /\
+    forall m ps, In (m, ps) (spec_read c (file_of (p1_of_ptime ptime) d) srcs types R) ->
+      exists o bs pre rest, In (o, bs) (fi_spec_frames d) /\ m = msg_of_frame (p1_of_ptime ptime) (o, bs) /\
+        fi_spec_frames d = pre ++ (o, bs) :: rest /\
+        ps = select5 (flags_of c) [PHeader m; PPayload m; PBytes (Z.of_nat o) (Z.of_nat (length bs)); POffset (Z.of_nat o); PIndex (zlen pre)] /\
+        sub d o (length bs) = bs /\ judge_file bs = Accept (length bs) /\ FileScanM.read_at d o = RYield bs.
+Proof. exact read_through_open. Qed.
+Print Assumptions C10_read_from_file_bytes.
+
+(* Non-vacuity at the byte level: a concrete 79-byte file (junk, Pose, another type, junk, Pose) meets every hypothesis;
+   with and without its saved index the reader holds the fresh index; types {Pose} + absolute [5 s, 6 s) returns the first
+   Pose with all five pieces, and its bytes are the 26 bytes at offset 2. *)
+Example C10_file_bytes_nonvacuous :
+  (fi_small_msgs 48 lk_log /\ plausible_index lk_p1 None lk_log /\ c_max_bytes lk_cfg = None /\
+   p1_times_sorted lk_p1 lk_log /\ range_has_t0 lk_cfg (file_of lk_p1 lk_log) lk_R) /\
+  opened_index 64 48 lk_ptime 2 load None lk_log false = Some (fresh lk_p1 lk_log) /\
+  opened_index 64 48 lk_ptime 2 load (saved lk_p1 lk_log) lk_log false = Some (fresh lk_p1 lk_log) /\
+  read_log fixed lk_cfg (file_of lk_p1 lk_log) None (Some [10000]) lk_R
+  = Ok [(mkM 2 26 10000 0 (Some 40),
+         [PHeader (mkM 2 26 10000 0 (Some 40)); PPayload (mkM 2 26 10000 0 (Some 40)); PBytes 2 26; POffset 2; PIndex 0])] /\
+  sub lk_log 2 26 = lk_msg 16 0 0 [5; 9]%N.
+Proof. exact (conj lk_hypotheses lk_result). Qed.
